@@ -5,25 +5,32 @@ var units = map[string]unit{
 		Files:     []string{"aggsender/types/block_range.go"},
 		Namespace: "Aggkit.Gen.BlockRange",
 		Imports:   []string{"AggkitModel.Model.GenPrelude"},
-		Fns: []fnSpec{{"", "getBlockMinusOne"}, {"BlockRange", "CountBlocks"}, {"BlockRange", "IsEmpty"}, {"BlockRange", "Gap"}},
+		Fns:       []fnSpec{{"", "getBlockMinusOne"}, {"BlockRange", "CountBlocks"}, {"BlockRange", "IsEmpty"}, {"BlockRange", "Gap"}},
 	},
 	"Limiter": {
 		Files:     []string{"aggsender/flows/max_l2blocknumber_limiter.go"},
 		Namespace: "Aggkit.Gen.Limiter",
 		Imports:   []string{"AggkitModel.Model.GenPrelude"},
-		Fns: []fnSpec{{"MaxL2BlockNumberLimiter", "IsEnabled"}, {"MaxL2BlockNumberLimiter", "IsAllowedBlockNumber"}, {"MaxL2BlockNumberLimiter", "isUpcomingNextRange"}},
+		Fns:       []fnSpec{{"MaxL2BlockNumberLimiter", "IsEnabled"}, {"MaxL2BlockNumberLimiter", "IsAllowedBlockNumber"}, {"MaxL2BlockNumberLimiter", "isUpcomingNextRange"}},
 	},
 	"EpochFns": {
 		Files:     []string{"aggsender/epoch_notifier_per_block.go"},
 		Namespace: "Aggkit.Gen.EpochFns",
 		Imports:   []string{"AggkitModel.Model.GenPrelude"},
-		Fns: []fnSpec{{"EpochNotifierPerBlock", "startingBlockEpoch"}, {"EpochNotifierPerBlock", "endBlockEpoch"}, {"EpochNotifierPerBlock", "epochNumber"}},
+		Fns:       []fnSpec{{"EpochNotifierPerBlock", "startingBlockEpoch"}, {"EpochNotifierPerBlock", "endBlockEpoch"}, {"EpochNotifierPerBlock", "epochNumber"}},
 	},
 	"QueryTable": {
 		Files:     []string{"bridgesync/bridgesync.go", "l1infotreesync/l1infotreesync.go", "bridgesync/processor.go", "l1infotreesync/processor.go"},
 		Namespace: "Aggkit.Gen.QueryTable",
 		Imports:   []string{"AggkitModel.Model.GenPrelude"},
 		Custom:    queryTable,
+	},
+	"CertFacts": {
+		Files: []string{"agglayer/types/types.go", "aggsender/types/certificate_metadata.go", "reorgdetector/reorgdetector.go",
+			"aggsender/aggsender.go", "aggsender/flows/flow_base.go", "bridgeservice/bridge.go"},
+		Namespace: "Aggkit.Gen.CertFacts",
+		Imports:   []string{"AggkitModel.Model.GenPrelude"},
+		Custom:    certFacts,
 	},
 	"Schema": {
 		Files:     []string{"*/migrations/*.sql", "db/sqlite.go"},
